@@ -1,17 +1,19 @@
 // C13 — File keys and volume ids are never handed out twice.
 //
 // Three parts, all against the real code:
-//  (a) sequencer level: MemorySequencer, EtcdSequencer (public NewEtcdSequencer
-//      against the harness' fake etcd v2 endpoint, 1-3 instances sharing it, each
-//      with its own meta dir, restarted mid-history) and SnowflakeSequencer under
-//      8-32 goroutines calling NextFileId(count) interleaved with SetMax(max key
-//      actually written);
-//  (b) master level: 1-3 real MasterServer instances (stub raft, leader token moved
-//      at random points), real SendHeartbeat + Assign handlers, modelled volume
-//      servers whose AllocateVolume gRPC endpoint is a harness stub; clients write a
-//      random subset of what they were assigned, some of it after the move;
-//  (c) volume ids: concurrent GrowByCountAndType on 1-2 Topologies (stub raft,
-//      leader moves) against the stub AllocateVolume endpoints.
+//
+//	(a) sequencer level: MemorySequencer, EtcdSequencer (public NewEtcdSequencer
+//	    against the harness' fake etcd v2 endpoint, 1-3 instances sharing it, each
+//	    with its own meta dir, restarted mid-history) and SnowflakeSequencer under
+//	    8-32 goroutines calling NextFileId(count) interleaved with SetMax(max key
+//	    actually written);
+//	(b) master level: 1-3 real MasterServer instances (stub raft, leader token moved
+//	    at random points), real SendHeartbeat + Assign handlers, modelled volume
+//	    servers whose AllocateVolume gRPC endpoint is a harness stub; clients write a
+//	    random subset of what they were assigned, some of it after the move;
+//	(c) volume ids: concurrent GrowByCountAndType on 1-2 Topologies (stub raft,
+//	    leader moves) against the stub AllocateVolume endpoints.
+//
 // Oracle: per volume, assigned ranges [k,k+count) are pairwise disjoint and contain
 // no key that was already in the volume when the assignment was requested; volume
 // ids handed to AllocateVolume are unique per growth.
@@ -127,15 +129,41 @@ type history struct {
 	r     *lib.Run
 	level string
 	seq   string
-	mu    sync.Mutex
-	asgs  []*asg
-	vols  map[uint32]*mvol
-	desc  map[string]interface{}
-	seen  map[string]int
+	// every value reported through SetMax / a heartbeat's MaxFileKey, with the stamp at
+	// which the first such report had completed (on whichever instance)
+	repMu    sync.Mutex
+	reported map[uint64]int64
+	mu       sync.Mutex
+	asgs     []*asg
+	vols     map[uint32]*mvol
+	desc     map[string]interface{}
+	seen     map[string]int
 }
 
 func newHistory(r *lib.Run, level, seq string, desc map[string]interface{}) *history {
 	return &history{r: r, level: level, seq: seq, vols: make(map[uint32]*mvol), desc: desc, seen: make(map[string]int)}
+}
+
+func (h *history) noteReported(v uint64) {
+	t := tick()
+	h.repMu.Lock()
+	if h.reported == nil {
+		h.reported = make(map[uint64]int64)
+	}
+	if _, ok := h.reported[v]; !ok {
+		h.reported[v] = t
+	}
+	h.repMu.Unlock()
+}
+
+// wasReported: had some instance been told, before stamp t, that key k is the largest key in use?
+func (h *history) wasReported(k uint64, t int64) string {
+	h.repMu.Lock()
+	defer h.repMu.Unlock()
+	if st, ok := h.reported[k]; ok && st < t {
+		return "true"
+	}
+	return "false"
 }
 
 func (h *history) record(a *asg) {
@@ -215,7 +243,7 @@ func (h *history) check() (overlaps, prehits int) {
 					prehits++
 					hm := cur.Issuer.hmaxBefore(cur.CallT)
 					h.report(lib.Sig{"class": "key-already-written", "origin": "preexisting", "kind": "preexisting",
-						"rel": relOf(pre[i], hm), "cross_instance": "n/a"},
+						"rel": relOf(pre[i], hm), "cross_instance": "n/a", "conflict_is_reported_value": h.wasReported(pre[i], cur.CallT)},
 						map[string]interface{}{"msg": "assignment contains a key that was already in the target volume",
 							"assignment": asgJSON(cur), "existing_key": pre[i], "reported_max_before_call": hm})
 				}
@@ -248,7 +276,7 @@ func (h *history) check() (overlaps, prehits int) {
 				}
 				hm := l.Issuer.hmaxBefore(l.CallT)
 				h.report(lib.Sig{"class": class, "origin": "assigned", "kind": kind, "rel": relOf(c, hm),
-					"cross_instance": fmt.Sprint(e.Issuer != l.Issuer)},
+					"cross_instance": fmt.Sprint(e.Issuer != l.Issuer), "conflict_is_reported_value": h.wasReported(c, l.CallT)},
 					map[string]interface{}{"msg": "two assignments for one volume overlap", "earlier": asgJSON(e), "later": asgJSON(l),
 						"conflict_key": c, "reported_max_before_later_call": hm})
 			}
@@ -345,6 +373,7 @@ func (w *seqWorld) setMax(g *seqGen) {
 	v := atomic.LoadUint64(&w.maxW)
 	g.seq.SetMax(v)
 	g.is.logSetMax(v)
+	w.h.noteReported(v)
 	g.mu.Lock()
 	g.seen = snap
 	g.mu.Unlock()
@@ -666,31 +695,31 @@ func checkVolumeIds(r *lib.Run, level string, recs []allocRec, existing map[uint
 // (b) master level
 
 type mSched struct {
-	Index    int    `json:"index"`
-	Seq      string `json:"seq"`
-	Masters  int    `json:"masters"`
-	Servers  int    `json:"servers"`
-	Clients  int    `json:"clients"`
-	Ops      int    `json:"ops_per_client"`
-	Moves    int    `json:"leader_moves"`
-	PreVols  bool   `json:"preexisting_volumes"`
-	PreMax   uint64 `json:"pre_max"`
-	RngSeed  int64  `json:"rng_seed"`
-	Lane     int    `json:"lane"`
+	Index   int    `json:"index"`
+	Seq     string `json:"seq"`
+	Masters int    `json:"masters"`
+	Servers int    `json:"servers"`
+	Clients int    `json:"clients"`
+	Ops     int    `json:"ops_per_client"`
+	Moves   int    `json:"leader_moves"`
+	PreVols bool   `json:"preexisting_volumes"`
+	PreMax  uint64 `json:"pre_max"`
+	RngSeed int64  `json:"rng_seed"`
+	Lane    int    `json:"lane"`
 }
 
 type mWorld struct {
-	r       *lib.Run
-	s       mSched
-	h       *history
-	group   *lib.M13RaftGroup
-	masters []*lib.M13Master
-	iss     []*issuer
-	servers []*vserver
-	allocs  allocLog
-	etcd    *lib.M13FakeEtcd
+	r                                              *lib.Run
+	s                                              mSched
+	h                                              *history
+	group                                          *lib.M13RaftGroup
+	masters                                        []*lib.M13Master
+	iss                                            []*issuer
+	servers                                        []*vserver
+	allocs                                         allocLog
+	etcd                                           *lib.M13FakeEtcd
 	assignOK, assignErr, notLeader, inflightAtMove int64
-	growths int64
+	growths                                        int64
 }
 
 func (w *mWorld) heartbeatMsg(s *vserver, first bool) *master_pb.Heartbeat {
@@ -740,6 +769,7 @@ func (w *mWorld) beat(s *vserver) {
 		return
 	}
 	w.iss[s.master].logSetMax(hb.MaxFileKey)
+	w.h.noteReported(hb.MaxFileKey)
 	w.r.Count("master.heartbeats", 1)
 	s.knows = leader
 }
@@ -980,7 +1010,7 @@ func masterSchedules(r *lib.Run, n int) []mSched {
 	var out []mSched
 	for i := 0; i < n; i++ {
 		s := mSched{Index: i, Seq: []string{"memory", "etcd", "snowflake", "memory", "etcd"}[i%5], Masters: 1 + rng.Intn(3), Servers: 2 + rng.Intn(2),
-			Clients: 2 + rng.Intn(4), Ops: r.Pick(30, 80), RngSeed: rng.Int63()}
+			Clients: 2 + rng.Intn(4), Ops: r.Pick(30, 60), RngSeed: rng.Int63()}
 		if i%4 != 3 {
 			s.Masters = 2 + rng.Intn(2)
 		}
@@ -1206,10 +1236,10 @@ func main() {
 	}
 
 	for _, typ := range []string{"memory", "etcd", "snowflake"} {
-		n, ops, lanes := r.Pick(50, 1000), 2000, 1
+		n, ops, lanes := r.Pick(50, 600), 2000, 1
 		if typ == "etcd" {
 			// every batch fetch fsyncs sequencer.dat: fewer operations per schedule, 4 schedules at a time
-			n, ops, lanes = r.Pick(50, 400), r.Pick(800, 2000), 4
+			n, ops, lanes = r.Pick(50, 120), r.Pick(800, 2000), 4
 		}
 		t0 := time.Now()
 		scheds := seqSchedules(r, typ, n, ops)
@@ -1222,7 +1252,7 @@ func main() {
 		r.Note("wall_ms.seq."+typ, time.Since(t0).Milliseconds())
 	}
 	tm := time.Now()
-	ms := masterSchedules(r, r.Pick(20, 500))
+	ms := masterSchedules(r, r.Pick(20, 120))
 	runLanes(len(ms), 4, func(lane, i int) {
 		ms[i].Lane = lane
 		runMasterHistory(r, ms[i])
@@ -1232,7 +1262,7 @@ func main() {
 	})
 	r.Note("wall_ms.master", time.Since(tm).Milliseconds())
 	grng := r.SubRng("c13-grow")
-	for i := 0; i < r.Pick(12, 200); i++ {
+	for i := 0; i < r.Pick(12, 100); i++ {
 		s := gSched{Index: i, Topologies: 1 + i%2, Goroutines: 2 + grng.Intn(5), Calls: 4 + grng.Intn(5), FailPct: []int{0, 10, 30}[grng.Intn(3)], RngSeed: grng.Int63()}
 		if s.Topologies > 1 {
 			s.Moves = 1 + grng.Intn(4)
